@@ -188,15 +188,15 @@ def gen_ctors(thorough, rnd):
     out = []
     L = [Z, ONE, [-1, 2], [3, 8]] if thorough else [Z, ONE, [-1, 2]]
     T = [Z, [3, 8], ONE, [1, 4]] if thorough else [Z, [3, 8], ONE]
-    C = ALL_CURVES if thorough else [cv('lin'), cv('exp'), cnum(-4), cv('sqr'), cv('hold'), cv('welch'), cv('foo')]
+    C = ALL_CURVES if thorough else [cv('lin'), cv('exp'), cnum(-4), cv('sqr'), cv('hold'), cv('foo')]
     arity = dict(triangle='TL', sine='TL', perc='TTL', linen='TTTL', cutoff='TL', dadsr='TTTLTLB',
                  adsr='TTLTLB', asr='TLT')
     B = [Z, ONE, [-1, 4]]
     for c, sig in arity.items():
         pools = [dict(T=T, L=L, B=B)[k] for k in sig]
         combos = list(itertools.product(*pools))
-        if len(combos) > (400 if thorough else 60):
-            combos = rnd.sample(combos, 400 if thorough else 60)
+        if len(combos) > (400 if thorough else 36):
+            combos = rnd.sample(combos, 400 if thorough else 36)
         for p in combos:
             p = [list(x) for x in p]
             curves = [None] if c in ('triangle', 'sine') else C
